@@ -3,7 +3,8 @@
 From Coq Require Export ZArith.
 From AGH Require Import Base.Run.
 From AGH Require Export Model.ClientIndex Model.ClientIDCache.
-From AGH Require Export Run.C04Conf Run.C04SMap Run.C04HTTP.
+From AGH Require Export Run.C04Conf Run.C04SMap Run.C04HTTP Run.C04Lease.
+From AGH Require Model.Dhcp4.
 From AGH Require Model.Schedule.
 Local Open Scope N_scope.
 
@@ -64,7 +65,12 @@ Inductive case :=
   | CHttp (env : henv) (global : ssconf) (g : settings) (leases : list (addr * bytes))
           (probes : list (bytes * addr)) (finds : list (bytes * option addr * option bytes))
           (objs : list (uid * cobj)) (start : hobs) (steps : list (hop * hobs))
-          (after : option (list (option eobs))).
+          (after : option (list (option eobs)))
+  (* round 9, the real DHCP server behind the real storage (Run/C04Lease.v):
+     static-lease API calls, accepted and rejected, with MACByIP and the
+     attribution of every probe address after each *)
+  | CLease (c : Dhcp4.conf) (clients : list client) (probes : list addr)
+           (steps : list (Dhcp4.op * lobs)).
 
 Definition err_code (e : err) : N :=
   match e with
@@ -147,6 +153,7 @@ Definition case_ok (c : case) : bool :=
   | CSMap univ addrs steps => sm_replay univ addrs pm_new steps
   | CHttp env global g leases probes finds objs start steps after =>
       http_ok err_code eqb_settings (cfg_of env) (he_known env) global g leases probes finds objs start steps after
+  | CLease c clients probes steps => lease_replay c (lease_ix clients) probes Dhcp4.empty_state steps
   end.
 
 Definition mismatches := Base.Run.mismatches case_ok.
@@ -174,12 +181,15 @@ Definition explain (c : case) :=
   match c with
   | CHist finds names acfs g env gb0 steps =>
       (explain_steps finds names acfs g env empty_index [] gb0 steps, @nil (option bytes),
-       @None (cres * option cres), @nil sm_explained, @None (hobs * list hobs * option (list (option eobs))))
-  | CHand evs => ([], explain_ev [] evs, None, [], None)
+       @None (cres * option cres), @nil sm_explained, @None (hobs * list hobs * option (list (option eobs))),
+       @nil lobs)
+  | CHand evs => ([], explain_ev [] evs, None, [], None, [])
   | CConf env srcs leases probes g objs _ _ =>
-      ([], [], Some (conf_model err_code srcs leases (cfg_of env) (he_known env) probes g objs), [], None)
-  | CSMap univ addrs steps => ([], [], None, sm_explain univ addrs pm_new steps, None)
+      ([], [], Some (conf_model err_code srcs leases (cfg_of env) (he_known env) probes g objs), [], None, [])
+  | CSMap univ addrs steps => ([], [], None, sm_explain univ addrs pm_new steps, None, [])
   | CHttp env global g leases probes finds objs _ steps _ =>
       ([], [], None, [],
-       http_model err_code (cfg_of env) (he_known env) global g leases probes finds objs steps)
+       http_model err_code (cfg_of env) (he_known env) global g leases probes finds objs steps, [])
+  | CLease c clients probes steps =>
+      ([], [], None, [], None, lease_explain c (lease_ix clients) probes Dhcp4.empty_state steps)
   end.
